@@ -25,7 +25,7 @@ import itertools
 from typing import Optional
 
 from crosshair.tracers import NoTracing
-from liquid import Environment
+from liquid import DictLoader, Environment, Mode
 from liquid.exceptions import LiquidError
 from liquid.extra.tags.macro_tag import CallNode, Macro, MacroNode
 
@@ -358,6 +358,14 @@ FIXED = {
                    lambda a, b, c, gx, gy, nn, m: _exp_break(b, gx, False)),
     "with_continue": ("{% for i in (1..3) %}{% with x: i %}{% if i == b %}{% continue %}{% endif %}{{ x }}{% endwith %}{% endfor %}[{{ x }}]",
                       lambda a, b, c, gx, gy, nn, m: _exp_break(b, gx, True)),
+    "with_break_no_leak": ("{% for i in (1..3) %}{% with x: i %}{% if i == b %}{% break %}{% endif %}{{ x }}{% endwith %}{% endfor %}[{{ x }}{{ i }}{{ forloop.index }}]",
+                           lambda a, b, c, gx, gy, nn, m: _exp_break(b, gx, False)),
+    "with_continue_every": ("{% for i in (1..m) %}{% with x: i %}{{ x }}{% continue %}{{ x }}{% endwith %}{% endfor %}[{{ x }}{{ i }}]",
+                            lambda a, b, c, gx, gy, nn, m: "".join(str(i) for i in range(1, m + 1)) + "[" + S(gx) + "]"),
+    "with_break_nested": ("{% with x: a %}{% for i in (1..2) %}{% with x: i, y: i %}{% break %}{% endwith %}{% endfor %}{{ x }}{{ y }}{% endwith %}[{{ x }}]",
+                          lambda a, b, c, gx, gy, nn, m: S(a) + S(gy) + "[" + S(gx) + "]"),
+    "with_lax_error": ("{% with x: a %}{{ x }}{{ x | nosuchfilter }}{{ x }}{% endwith %}[{{ x }}]{% with y: b %}{% include 'nosuchpartial' %}{% endwith %}[{{ y }}]",
+                       lambda a, b, c, gx, gy, nn, m: S(a) + "[" + S(gx) + "][" + S(gy) + "]"),
     "with_siblings": ("{% with x: a %}{{ x }}{% endwith %}/{% with y: b %}{{ x }}{{ y }}{% endwith %}/{{ x }}{{ y }}",
                       lambda a, b, c, gx, gy, nn, m: S(a) + "/" + S(gx) + S(b) + "/" + S(gx) + S(gy)),
     "with_path_value": ("{% with p: o.v, x: o.w %}{{ p }}[{{ x }}]{% endwith %}[{{ p }}]{{ x }}",
@@ -392,7 +400,8 @@ FIXED = {
                             "{% call 'foo' a, 43, b, u: c, v: n %}",
                             lambda a, b, c, gx, gy, nn, m: "- " + S(a) + " - 43 - " + S(b) + " - u => " + S(c) + " - v => " + S(nn) + " "),
 }
-T_FIXED = {k: ENV.from_string(v[0]) for k, v in FIXED.items()}
+ENV_LAX = Environment(extra=True, tolerance=Mode.LAX, loader=DictLoader({}))
+T_FIXED = {k: (ENV_LAX if k.endswith("_lax_error") else ENV).from_string(v[0]) for k, v in FIXED.items()}
 
 
 def fixed_case(key, asy, a, b, c, gx, gy, nn, m):
@@ -404,6 +413,7 @@ GROUPS = {
     "with_shadowing": ("with_basic", "with_over_assign", "with_over_capture", "with_gone_after", "with_nil_shadows", "with_undefined_shadows"),
     "with_scoping": ("with_two_args", "with_outer_eval", "with_nested", "with_siblings", "with_path_value", "with_literals"),
     "with_loops": ("with_in_for", "with_break", "with_continue"),
+    "with_left_early": ("with_break_no_leak", "with_continue_every", "with_break_nested", "with_lax_error"),
     "with_and_macro": ("with_around_call", "with_in_macro", "macro_own_scope", "macro_no_leak"),
     "macro_defaults": ("macro_two_calls", "macro_late_default", "macro_literal_defaults", "macro_nil_argument"),
     "macro_forms": ("macro_in_for", "macro_quoted_name", "macro_docs_variadic", "macro_caller_scope", "macro_commas"),
